@@ -122,6 +122,16 @@ class AFfi(object):
 CONCRETE = (int, bool, bytes, str, type(None), float, range, frozenset)
 
 
+class ADeque(list):
+    """collections.deque as the interpreter sees it: a list with the two extra end operations."""
+
+    def popleft(self):
+        return self.pop(0)
+
+    def appendleft(self, x):
+        self.insert(0, x)
+
+
 def is_concrete(v):
     if isinstance(v, CONCRETE):
         return True
